@@ -321,6 +321,18 @@ func independentFamily(iv timeutil.Interval, ts int64, loc *time.Location) (star
 // stops: every row of that local day (and the rest of the shard group) is silently not written.
 const keyNoMidnight = "month-family-of-a-local-day-without-midnight-has-an-empty-range-rows-not-written"
 
+// keyBeforeNoMidnight: the same time.Date(y, m, d+1, 0, …) seen from the day BEFORE: the end of that day's
+// family is computed as "one ms before the next local midnight", the next midnight does not exist and is
+// normalised to 23:00 of this day — the range ends an hour early, a row of the last local hour is not
+// inside the range computed from its own timestamp and HasNextFamily stops at it.
+const keyBeforeNoMidnight = "month-family-before-a-local-day-without-midnight-ends-an-hour-early-rows-not-written"
+
+// nextDayNoMidnight: the local day after the day of ts does not begin at 00:00.
+func nextDayNoMidnight(ts int64, loc *time.Location) bool {
+	t := time.UnixMilli(ts).In(loc)
+	return noLocalMidnight(time.Date(t.Year(), t.Month(), t.Day()+1, 12, 0, 0, 0, loc).UnixMilli(), loc)
+}
+
 // noLocalMidnight: the local day of ts does not begin at 00:00.
 func noLocalMidnight(ts int64, loc *time.Location) bool {
 	t := time.UnixMilli(ts).In(loc)
@@ -356,6 +368,25 @@ func witnessNoMidnight(c *core.Ctx) {
 		c.Fail(keyNoMidnight, fmt.Sprintf("zone America/Santiago, interval 5m, one series, rows at 2024-09-09 12:00 and 2024-09-08 12:00 local: family range of the second [%d, %d] (end before start), the iterators hand out %d of 2 rows", rg.Start, rg.End, h))
 	} else {
 		c.Note("finding " + keyNoMidnight + " does not reproduce (repaired?)")
+	}
+	// the day before: last local hour
+	tsA := time.Date(2024, 9, 6, 12, 0, 0, 0, loc).UnixMilli()
+	tsB := time.Date(2024, 9, 7, 23, 30, 0, 0, loc).UnixMilli()
+	b2 := metric.NewBrokerBatchRows()
+	for i, t := range []int64{tsA, tsB} {
+		m := simpleMetric(i, t)
+		m.tags = []*ltag{{"id", "same"}}
+		_ = b2.TryAppend(func(row *metric.BrokerRow) error {
+			err, _, _ := convertProto(cf, m, row)
+			return err
+		})
+	}
+	_, rgB := familyRange(iv, tsB)
+	h2 := handedOut(b2, 1, iv)
+	if h2 != 2 || !rgB.Contains(tsB) {
+		c.Fail(keyBeforeNoMidnight, fmt.Sprintf("zone America/Santiago, interval 5m, one series, rows at 2024-09-06 12:00 and 2024-09-07 23:30 local: family range of the second [%d, %d] ends at 22:59:59.999, the iterators hand out %d of 2 rows", rgB.Start, rgB.End, h2))
+	} else {
+		c.Note("finding " + keyBeforeNoMidnight + " does not reproduce (repaired?)")
 	}
 }
 
@@ -470,7 +501,12 @@ func caseDSTFamilies(c *core.Ctx, r *rand.Rand) {
 	}
 	if iv.Type() == timeutil.Month {
 		for _, s := range sentRows {
-			if _, rg := familyRange(iv, s.ts); noLocalMidnight(s.ts, loc) && !rg.Contains(s.ts) {
+			if _, rg := familyRange(iv, s.ts); !noLocalMidnight(s.ts, loc) && nextDayNoMidnight(s.ts, loc) && !rg.Contains(s.ts) {
+				c.Fail(keyBeforeNoMidnight, fmt.Sprintf("timestamp %s lies in the last hour before a local day without 00:00: calculator range [%d, %d] ends before it; the iterators hand out %d of %d rows (%s)",
+					time.UnixMilli(s.ts).In(loc), rg.Start, rg.End, handedOut(b, numShards, iv), b.Len(), desc()))
+				c.NonTrivial()
+				return
+			} else if noLocalMidnight(s.ts, loc) && !rg.Contains(s.ts) {
 				// the recorded finding's region: judged by its own key only
 				c.Fail(keyNoMidnight, fmt.Sprintf("timestamp %s lies on a local day without 00:00: calculator range [%d, %d] is empty; the iterators hand out %d of %d rows (%s)",
 					time.UnixMilli(s.ts).In(loc), rg.Start, rg.End, handedOut(b, numShards, iv), b.Len(), desc()))
